@@ -20,9 +20,16 @@ Core Lean only.  What `Model/C12.lean` leaves to the caller is modelled here as 
 -/
 namespace WhVerif.C12
 
+/-- `entry.split(",")`, structurally on the characters (`acc` = the current field, reversed) -/
+def splitCommaAux : List Char → List Char → List String
+  | [], acc => [String.ofList acc.reverse]
+  | c :: cs, acc => if c == ',' then String.ofList acc.reverse :: splitCommaAux cs [] else splitCommaAux cs (c :: acc)
+
+def splitComma (s : String) : List String := splitCommaAux s.toList []
+
 /-- `unpack_chromosomes` -/
 def unpackChromosomes (args : List String) : List String :=
-  (args.flatMap (fun e => e.splitOn ",")).filter (fun c => c != "")
+  (args.flatMap splitComma).filter (fun c => c != "")
 
 inductive RunErr
   | chrom (e : Err)                    -- raised while reading / reporting one chromosome
